@@ -46,7 +46,13 @@ func Coord(t *rapid.T, label string, r float64) float64 {
 		n := rapid.IntRange(-8, 8).Draw(t, label+".g")
 		return float64(n) * r / 8
 	default:
-		return rapid.Float64Range(-r, r).Draw(t, label)
+		x := rapid.Float64Range(-r, r).Draw(t, label)
+		// magnitudes below 1e-9 of the scale are outside the CAD domain (they only
+		// appear when rapid shrinks towards zero): snap them to exactly zero
+		if math.Abs(x) < 1e-9*r {
+			return 0
+		}
+		return x
 	}
 }
 
